@@ -102,6 +102,15 @@ def ev(node, cx):
                     return Val(dict(a.value) if fname == 'dict' and isinstance(a.value, dict) else
                                (list(a.value) if fname == 'list' else a.value), a.prov, a.parts, line, a.path)
             return Val(OPAQUE, line=line)
+        if _self_attr(f) and not node.args and not node.keywords:
+            # argument-less helper of the same object with a single return
+            kk, hfn = an.idx.find_method(cx.state.cls, f.attr)
+            rets = [r for r in ast.walk(hfn) if isinstance(r, ast.Return)] if isinstance(hfn, ast.FunctionDef) else []
+            if len(rets) == 1 and rets[0].value is not None and not isinstance(rets[0].value, ast.Call):
+                return ev(rets[0].value, Ctx(an, kk.mod, cx.state))
+            if len(rets) == 1 and isinstance(rets[0].value, ast.Call) and not _self_attr(rets[0].value.func):
+                return ev(rets[0].value, Ctx(an, kk.mod, cx.state))
+            return Val(OPAQUE, line=line)
         if fname in ('get_safe_reg_exp', 'load_ambiguity_filters') and node.args:
             a = ev(node.args[0], cx)
             return Val(a.value, a.prov, None, line, a.path)
